@@ -172,7 +172,9 @@ def _post_case(draw, tier):
     case = dict(part="post", cls=cls, cfg=cfg, Ns=Ns,
                 ns_form=draw(st.sampled_from(["int", "list", "array"])),
                 p_form=draw(st.sampled_from(["none", "scalar", "list",
-                                             "array"])),
+                                             "array", "np.float64",
+                                             "np.float32", "np.int64",
+                                             "int"])),
                 pvals=draw(_pvals()), seed=draw(seeds))
     if cls == "ClosedForm":
         case["best"] = draw(st.booleans())
@@ -319,8 +321,19 @@ def _hist_case(draw, tier):
         op=st.just("bad_P"), how=st.sampled_from(["negative", "zero",
                                                    "length", "scalar0"]),
         pvals=_pvals()))
+    # P_augmented: 'solver.P *= factor' (read - scale - assign through the
+    # public property)
+    p_aug = st.fixed_dictionaries(dict(
+        op=st.just("P_augmented"), factor=st.sampled_from([0.25, 4.0, 9.0])))
+    # bad_call: other calls the library must refuse (receive filters given
+    # neither / both ways, no precoder given, a non-positive power handed to
+    # set_precoders / randomizeF / solve); the solver stays as it was
+    bad_call = st.fixed_dictionaries(dict(
+        op=st.just("bad_call"),
+        what=st.sampled_from(["rx_none", "rx_both", "prec_none", "prec_badP",
+                              "randomizeF_badP", "solve_badP"])))
     setters = [_op_setP(), _op_setP(), _op_randomizeF(), _op_set_precoders(),
-               _op_set_rx(), p_inplace, bad_p]
+               _op_set_rx(), p_inplace, bad_p, p_aug, bad_call]
     first = [_op_randomizeF(), _op_set_precoders()]
     if cls != "Base":
         setters.append(_op_solve())
@@ -430,6 +443,18 @@ def _p_arg(form, vals, K):
         return None, np.ones(K)
     if form == "scalar":
         return float(vals[0]), np.ones(K) * float(vals[0])
+    if form in ("np.float64", "np.float32", "np.int64", "int"):
+        # a scalar power as another number type (an element taken from an
+        # array, a whole number)
+        if form == "np.float64":
+            v = np.float64(vals[0])
+        elif form == "np.float32":
+            v = np.float32(vals[0])
+        elif form == "np.int64":
+            v = np.int64(max(1, int(round(vals[0]))))
+        else:
+            v = int(max(1, int(round(vals[0]))))
+        return v, np.ones(K) * float(v)
     v = [float(x) for x in vals[:K]]
     if form == "list":
         return list(v), np.array(v)
@@ -749,7 +774,26 @@ def _check_post(case, ctx):
                                 "brute force search up to %r" %
                                 (n_list, before), tags)
             return
-        solver.solve(_ns_arg(case["ns_form"], Ns), p_arg)
+        if cls != "ClosedForm" and case["seed"] % 4 == 1:
+            # an initialisation mode that does not exist is refused; the
+            # solver then works as configured
+            try:
+                solver.initialize_with = "no_such_mode"
+            except RuntimeError:
+                ctx.label("bad_initialize_with_refused")
+            else:
+                raise Violation("bad_init_mode_accepted", "initialize_with = "
+                                "'no_such_mode' was accepted", tags)
+        ns_given = _ns_arg(case["ns_form"], Ns)
+        solver.solve(ns_given, p_arg)
+        if isinstance(ns_given, np.ndarray):
+            if not np.array_equal(ns_given, np.array(Ns)):
+                raise Violation("Ns_argument_modified", "solve changed the "
+                                "array of stream counts handed to it: %r -> "
+                                "%r" % (Ns, ns_given.tolist()), tags)
+            # the caller re-uses its array for the next configuration
+            ns_given[...] = 1
+            ctx.label("Ns_array_reused_by_caller")
         n_list = _postconditions(ctx, solver, cls, cfg, H, P_exp, tags)
         if n_list != Ns:
             ctx.label("stream_reduced")
@@ -984,6 +1028,9 @@ def _read(ctx, solver, model, cls, what, tags, opi):
         return True
     if what == "F":
         got = solver.F
+        if got is None:
+            raise Violation("read_missing", "solver.F is None although "
+                            "precoders / filters were set", t)
         for k in range(K):
             g = np.asarray(got[k])
             if g.shape != model.F[k].shape:
@@ -995,6 +1042,9 @@ def _read(ctx, solver, model, cls, what, tags, opi):
         return True
     if what == "full_F":
         got = solver.full_F
+        if got is None:
+            raise Violation("read_missing", "solver.full_F is None although "
+                            "precoders / filters were set", t)
         exp = model.fullF()
         obs = [np.asarray(got[k]) for k in range(len(got))]
         bad, worst = None, 0.0
@@ -1024,6 +1074,9 @@ def _read(ctx, solver, model, cls, what, tags, opi):
             ctx.label("read_skipped:no_filters")
             return False
         got = solver.W if what == "W" else solver.W_H
+        if got is None:
+            raise Violation("read_missing", "solver.%s is None although "
+                            "receive filters were set" % what, t)
         for k in range(K):
             exp = model.W[k] if what == "W" else model.W[k].conj().T
             g = np.asarray(got[k])
@@ -1039,6 +1092,10 @@ def _read(ctx, solver, model, cls, what, tags, opi):
                       else "read_skipped:filters_other_Ns")
             return False
         got = solver.full_W_H if what == "full_W_H" else solver.full_W
+        if got is None:
+            raise Violation("read_missing", "solver.%s is None although "
+                            "precoders and receive filters were set" % what,
+                            t)
         obs = [np.asarray(got[k]) for k in range(K)]
         fF = model.fullF()
         bad = None
@@ -1159,6 +1216,44 @@ def _apply(ctx, solver, model, cls, op, tags, opi):
             return          # the model is unchanged: so must the solver be
         raise Violation("bad_P_accepted", "solver.P = %r was accepted" %
                         (arg,), tags)
+
+    if kind == "bad_call":
+        what = op["what"]
+        if what == "solve_badP" and cls == "Base":
+            what = "randomizeF_badP"
+        Ns_now = [int(f.shape[1]) for f in solver.F] if solver.F is not None \
+            else [1] * K
+        W1 = _objarray([np.ones((cfg["Nr"][k], 1), dtype=complex)
+                   for k in range(K)])
+        F1 = _objarray([np.ones((cfg["Nt"][k], 1), dtype=complex)
+                   for k in range(K)])
+        calls = {
+            "rx_none": (lambda: solver.set_receive_filters(), RuntimeError),
+            "rx_both": (lambda: solver.set_receive_filters(W_H=W1, W=W1),
+                        RuntimeError),
+            "prec_none": (lambda: solver.set_precoders(), RuntimeError),
+            "prec_badP": (lambda: solver.set_precoders(F=F1, P=-1.0),
+                          ValueError),
+            "randomizeF_badP": (lambda: solver.randomizeF(Ns_now, 0.0),
+                                ValueError),
+            "solve_badP": (lambda: solver.solve(Ns_now, -2.0), ValueError),
+        }
+        fn, exc = calls[what]
+        try:
+            fn()
+        except exc:
+            ctx.label("bad_call_refused:" + what)
+            return          # the model is unchanged: so must the solver be
+        raise Violation("bad_call_accepted", "%s was accepted" % what, tags)
+
+    if kind == "P_augmented":
+        ctx.label("P_augmented_assignment")
+        want = model.Pvec() * float(op["factor"])
+        solver.P *= float(op["factor"])
+        model.P = np.array(want, dtype=float, copy=True)
+        model.fullF_explicit = None
+        model.note_change("P_setter", DERIVED)
+        return
 
     if kind == "P_inplace":
         arr = getattr(model, "caller_P", None)
